@@ -572,10 +572,10 @@ pub fn run(args: &Args, report: &mut Report) {
         }
         return;
     }
-    let n_dual = report.size(12_000, 300_000);
-    let n_adam = report.size(6000, 120_000);
-    let n_search = report.size(6000, 120_000);
-    let n_adam_chain = report.size(960, 20_000);
+    let n_dual = report.size(12_000, 4_000_000);
+    let n_adam = report.size(6000, 1_500_000);
+    let n_search = report.size(6000, 1_500_000);
+    let n_adam_chain = report.size(960, 300_000);
     crate::report::par_run(report, n_adam_chain, |i, rep| adam_chain_case(rep, seed, i, "C07"));
     crate::report::par_run(report, n_dual + n_adam + n_search, |i, rep| {
         if i < n_dual {
@@ -587,7 +587,7 @@ pub fn run(args: &Args, report: &mut Report) {
         }
     });
     // closed loop with confirmation stage
-    let n_closed = report.size(72, 576);
+    let n_closed = report.size(72, 2304);
     let results = std::sync::Mutex::new(Vec::new());
     crate::report::par_run(report, n_closed, |i, rep| {
         if let Some((dev, se)) = closed_loop_case(rep, seed, i, false) {
